@@ -628,10 +628,37 @@ class Fn:
                 out.append(o)
         return out
 
-    def derived_locals(self, start_locals, through=None, include_call_results=True, call_filter=None):
+    def derived_locals(self, start_locals, through=None, include_call_results=True, call_filter=None, mut_args=False):
         """Forward may-flow closure inside this function: locals whose value may derive from
-        any of `start_locals` through assignments, refs, aggregates and (optionally) calls."""
+        any of `start_locals` through assignments, refs, aggregates and (optionally) calls.
+        mut_args=True: a call with a tainted argument also taints every local it receives by `&mut`
+        (hashers, buffers filled through extend_from_slice, ...)."""
         tainted = set(start_locals)
+        mutref = {}
+        if mut_args:
+            for l, ds in self.defs.items():
+                for (b, i, kind, data) in ds:
+                    if kind == "assign" and data[2]["k"] == "ref" and data[2].get("m") == "mut":
+                        mutref.setdefault(l, set()).add(data[2]["p"]["l"])
+                    elif kind == "assign" and data[2]["k"] == "use":
+                        q = op_place(data[2]["o"])
+                        if q is not None:
+                            mutref.setdefault(l, set()).add(("alias", q.l))
+            # resolve reborrows (`_10 = &mut *_11; _11 = &mut _3`) and moves of references transitively
+            ch = True
+            while ch:
+                ch = False
+                for l in list(mutref):
+                    for base in list(mutref[l]):
+                        tgt = base[1] if isinstance(base, tuple) else base
+                        for x in mutref.get(tgt, ()):
+                            if x not in mutref[l]:
+                                mutref[l].add(x)
+                                ch = True
+            for l in list(mutref):
+                mutref[l] = {b for b in mutref[l] if not isinstance(b, tuple)}
+                if not mutref[l]:
+                    del mutref[l]
         changed = True
         while changed:
             changed = False
@@ -656,6 +683,14 @@ class Fn:
                         if dl not in tainted:
                             tainted.add(dl)
                             changed = True
+                        if mut_args:
+                            for a in t["args"]:
+                                ap = op_place(a)
+                                if ap is not None:
+                                    for base in mutref.get(ap.l, ()):
+                                        if base not in tainted:
+                                            tainted.add(base)
+                                            changed = True
         return tainted
 
     # ------------------------------------------------------------ variant edges
